@@ -73,6 +73,14 @@ CHECKS.update({
             "DESIGN.md section 5 C01"),
 })
 
+CHECKS.update({
+    "C02": ("other",
+            "pairwise commutation: for every pair of statements not ordered by the recorded edges the real evaluate_condition/exec_* run as i;j and j;i on an arbitrary symbolic store and z3 decides equality of stores and event logs (transposition argument covers all linear extensions); failures re-run from the symbolic initial state and replayed concretely",
+            "Bounded symbolic checking of the real CodeBuilder output: every incomparable statement pair of every phase of the PG programs must commute for ALL store contents (stage 1, sound over-approximation); by the adjacent-transposition argument this makes every admissible schedule equal to program order. Stage 2 turns a stage-1 failure into a concrete counterexample from the initial state or leaves it undecided. Graph facts (visible statements totally ordered and after earlier state updates; fresh names) are checked concretely.",
+            "Trusted: z3, symx proxies, the transposition argument. User functions pure; indices in range; loop-bound/index variables 0..2 on the arbitrary store.",
+            "DESIGN.md section 5 C02"),
+})
+
 NOT_APPLICABLE = {
 }
 
